@@ -1,6 +1,7 @@
 from __future__ import annotations
 
 import calendar
+import copyreg
 import datetime
 import traceback
 
@@ -1386,21 +1387,16 @@ class DateTime(datetime.datetime, Date):
             self.tzinfo,
         )
 
-    def __reduce__(
-        self,
-    ) -> tuple[
-        type[Self],
-        tuple[int, int, int, int, int, int, int, datetime.tzinfo | None],
-    ]:
+    def __reduce__(self) -> tuple[Any, ...]:
         return self.__reduce_ex__(2)
 
-    def __reduce_ex__(
-        self, protocol: SupportsIndex
-    ) -> tuple[
-        type[Self],
-        tuple[int, int, int, int, int, int, int, datetime.tzinfo | None],
-    ]:
-        return self.__class__, self._getstate(protocol)
+    def __reduce_ex__(self, protocol: SupportsIndex) -> tuple[Any, ...]:
+        # fold is a keyword-only argument of the constructor
+        return copyreg.__newobj_ex__, (  # type: ignore[attr-defined]
+            self.__class__,
+            self._getstate(protocol),
+            {"fold": self.fold},
+        )
 
     def __deepcopy__(self, _: dict[int, Self]) -> Self:
         return self.__class__(
